@@ -122,12 +122,12 @@ def run(ctx, chk):
     shown = 0
     try:
         for r, lim, pz, u8 in sx.string_cases():
-            inst = "string(bytes left=%d, limit=%s, first NUL at %s, utf8 %s)" % (r, lim, pz, "valid" if u8 else "invalid")
-            out = sx.evaluate(ctx, "string", r, lim, pz, u8)
+            inst = "string(bytes left=%d, limit=%s, first NUL at %s, utf8 %s)" % (r, lim, pz, "valid" if u8 is True else ("valid, non-zero bytes after the NUL" if u8 else "invalid"))
+            out = sx.evaluate(ctx, "string", r, lim, pz, u8 is not False, padded=(u8 != "unpadded"))
             nstr += 1
             if not adv("string", out, inst):
                 continue
-            ref = sx.string_reference(r, lim, pz, u8)
+            ref = sx.string_reference(r, lim, pz, u8 is not False)
             v = out["result"]
             if isinstance(v, tuple) and v[0] == "err" and isinstance(v[1], tuple) and v[1][0] == "enum" and v[1][2]:
                 got = ("err", v[1][1].split("::")[-1], v[1][2][0], out["offset"], out["limit"])
